@@ -667,7 +667,8 @@ class P(Prop):
             if rng.random() < 0.4:       # writeToGpx(af=True): an <extensions> block per point
                 naf = rng.choice([0, 1, 2, 3])
                 c["af_names"] = rng.sample(AF_NAMES[:9] if rng.random() < 0.9 else AF_NAMES[:11], naf)
-                c["afs"] = [[self.rand_af(rng, True) for _ in range(naf)] for _ in rows]
+                # (a feature named like a tag the scanner reads gets plain integers: the model's <ele> has no nan / inf)
+                c["afs"] = [[self.rand_af(rng, nm not in ("ele", "time")) for nm in c["af_names"]] for _ in rows]
             out.append(c)
         for _ in range(10):
             rows, q = self.rand_rows(rng, "GEO", q=8)
